@@ -77,7 +77,7 @@ package planner
 // can drop, regroup or reorder rows: one clause, no GROUP BY, no HAVING, no ORDER BY. Both call
 // sites of simpleFetch carry the obligation. (The bodies are otherwise outside the subset - they
 // fan out to goroutines - so everything else is havoced: opt modifies-everything.)
-//@ props C12 C13 C11 C08 C10 C03
+//@ props C12 C13 C11 C08 C10 C03 C20
 //@ func (p *queryPlan) processClause
 //@   opt modifies-everything
 //@   opt obligations assert
@@ -88,11 +88,32 @@ package planner
 // subset. ASSUMED: it may change anything reachable (modifies-everything) and returns either an
 // error or a table of its own that nobody else holds, unlocked.
 //@ func simpleFetch
-//@   nobody
+//@   opt go-sequential
 //@   opt modifies-everything
+//@   requires cls != nil && lo != nil && chanSize >= 0 && (cls.S != nil ==> wfNode(cls.S)) && (cls.O != nil ==> wfObj(cls.O)) && (forall j int :: {gs[j]} 0 <= j && j < len(gs) ==> gs[j] != nil)
 //@   ensures[table-or-error] (result0 != nil && result1 == nil) || (result0 == nil && result1 != nil)
 //@   ensures[own-table] result0 != nil ==> result0.#lock_mu == 0
+//@   ensures[driver-error-surfaces@C20] $driverFailed && !old($driverFailed) ==> result1 != nil
 //@   ensures[existing-rows-untouched] forall m table.Row, k string :: {has(m, k)} {old(has(m, k))} old(allocated(m)) ==> has(m, k) == old(has(m, k)) && m[k] == old(m[k])
+//@   atcall Exist assert[all-three-fixed@C03] cls.S != nil && cls.P != nil && cls.O != nil && t != nil && t.s == cls.S && t.p == cls.P && t.o == cls.O
+//@   atcall Objects assert[subject-and-predicate-fixed@C03] cls.S != nil && cls.P != nil && cls.O == nil && s == cls.S && p == cls.P
+//@   atcall PredicatesForSubjectAndObject assert[subject-and-object-fixed@C03] cls.S != nil && cls.P == nil && cls.O != nil && s == cls.S && o == cls.O
+//@   atcall Subjects assert[predicate-and-object-fixed@C03] cls.S == nil && cls.P != nil && cls.O != nil && p == cls.P && o == cls.O
+//@   atcall TriplesForSubject assert[subject-fixed@C03] cls.S != nil && cls.P == nil && cls.O == nil && s == cls.S
+//@   atcall TriplesForPredicate assert[predicate-fixed@C03] cls.S == nil && cls.P != nil && cls.O == nil && p == cls.P
+//@   atcall TriplesForObject assert[object-fixed@C03] cls.S == nil && cls.P == nil && cls.O != nil && o == cls.O
+//@   atcall Triples assert[nothing-fixed@C03] cls.S == nil && cls.P == nil && cls.O == nil
+//@   loop 0 invariant tbl != nil && tbl.#lock_mu == 0 && 0 <= $i && $i <= len(gs) && $driverFailed == old($driverFailed)
+//@   loop 1 invariant tbl != nil && tbl.#lock_mu == 0 && 0 <= $i && $i <= len(gs) && $driverFailed == old($driverFailed)
+//@   loop 2 invariant deref(addr(os)) != nil && deref(addr(ts)) != nil && deref(addr(os)) != deref(addr(ts)) && deref(addr(os)).#closed == 1 && deref(addr(os)).#len == atentry(deref(addr(os)).#len) && 0 <= deref(addr(os)).#rcvd && deref(addr(ts)).#closed == 0 && deref(addr(ts)).#rcvd == 0 && tbl != nil && tbl.#lock_mu == 0 && $driverFailed == atentry($driverFailed) && (forall k int :: {deref(addr(os)).#out[k]} 0 <= k && k < deref(addr(os)).#len ==> wfObj(deref(addr(os)).#out[k])) && (forall k int :: {deref(addr(ts)).#out[k]} 0 <= k && k < deref(addr(ts)).#len ==> wfTriple(deref(addr(ts)).#out[k]))
+//@   loop 3 invariant tbl != nil && tbl.#lock_mu == 0 && 0 <= $i && $i <= len(gs) && $driverFailed == old($driverFailed)
+//@   loop 4 invariant deref(addr(ps)) != nil && deref(addr(ts)) != nil && deref(addr(ps)) != deref(addr(ts)) && deref(addr(ps)).#closed == 1 && deref(addr(ps)).#len == atentry(deref(addr(ps)).#len) && 0 <= deref(addr(ps)).#rcvd && deref(addr(ts)).#closed == 0 && deref(addr(ts)).#rcvd == 0 && tbl != nil && tbl.#lock_mu == 0 && $driverFailed == atentry($driverFailed) && (forall k int :: {deref(addr(ps)).#out[k]} 0 <= k && k < deref(addr(ps)).#len ==> deref(addr(ps)).#out[k] != nil) && (forall k int :: {deref(addr(ts)).#out[k]} 0 <= k && k < deref(addr(ts)).#len ==> wfTriple(deref(addr(ts)).#out[k]))
+//@   loop 5 invariant tbl != nil && tbl.#lock_mu == 0 && 0 <= $i && $i <= len(gs) && $driverFailed == old($driverFailed)
+//@   loop 6 invariant deref(addr(ss)) != nil && deref(addr(ts)) != nil && deref(addr(ss)) != deref(addr(ts)) && deref(addr(ss)).#closed == 1 && deref(addr(ss)).#len == atentry(deref(addr(ss)).#len) && 0 <= deref(addr(ss)).#rcvd && deref(addr(ts)).#closed == 0 && deref(addr(ts)).#rcvd == 0 && tbl != nil && tbl.#lock_mu == 0 && $driverFailed == atentry($driverFailed) && (forall k int :: {deref(addr(ss)).#out[k]} 0 <= k && k < deref(addr(ss)).#len ==> wfNode(deref(addr(ss)).#out[k])) && (forall k int :: {deref(addr(ts)).#out[k]} 0 <= k && k < deref(addr(ts)).#len ==> wfTriple(deref(addr(ts)).#out[k]))
+//@   loop 7 invariant tbl != nil && tbl.#lock_mu == 0 && 0 <= $i && $i <= len(gs) && $driverFailed == old($driverFailed)
+//@   loop 8 invariant tbl != nil && tbl.#lock_mu == 0 && 0 <= $i && $i <= len(gs) && $driverFailed == old($driverFailed)
+//@   loop 9 invariant tbl != nil && tbl.#lock_mu == 0 && 0 <= $i && $i <= len(gs) && $driverFailed == old($driverFailed)
+//@   loop 10 invariant tbl != nil && tbl.#lock_mu == 0 && 0 <= $i && $i <= len(gs) && $driverFailed == old($driverFailed)
 
 // addSpecifiedData, the part after the fetch (C10): for an OPTIONAL clause the row it was called for
 // is never lost - some row of the table extends it when the call succeeds.
@@ -315,6 +336,7 @@ package planner
 //@   loop 0 decreases ch.#len - ch.#rcvd
 //@ func addTriples
 //@   opt go-sequential
+//@   opt run-at-join
 //@   opt terminates
 //@   requires ts != nil && cls != nil && tbl != nil && tbl.#lock_mu == 0 && ts.#closed == 1 && 0 <= ts.#rcvd
 //@   requires[triples-well-formed] forall k int :: {ts.#out[k]} 0 <= k && k < ts.#len ==> wfTriple(ts.#out[k])
